@@ -1009,8 +1009,30 @@ pub fn check_main(check: &dyn Check, tier: Tier, seed: u64, cases_override: Opti
     });
     let evdir = verif_root().join("evidence");
     let _ = std::fs::create_dir_all(&evdir);
-    std::fs::write(evdir.join(format!("{check_id}.json")), serde_json::to_string_pretty(&evidence).unwrap())
-        .expect("write evidence");
+    // one evidence file per PROPERTY: a second check serving the same property (run after the first by the property's
+    // command, same tier and seed) adds its whole record under coverage.further_checks.<check id> of that file
+    let mut merged = false;
+    if check_id != id {
+        let main = evdir.join(format!("{id}.json"));
+        if let Some(mut first) = std::fs::read_to_string(&main).ok().and_then(|t| serde_json::from_str::<Json>(&t).ok()) {
+            if first["tier"] == evidence["tier"] && first["seed"] == evidence["seed"] {
+                let mut sub = evidence["coverage"].clone();
+                sub["assumptions"] = evidence["assumptions"].clone();
+                sub["wall_s"] = evidence["wall_s"].clone();
+                sub["violations"] = evidence["violations"].clone();
+                first["coverage"]["further_checks"][check_id] = sub;
+                first["wall_s"] = Json::from(first["wall_s"].as_f64().unwrap_or(0.0) + wall);
+                first["violations"] = Json::from(first["violations"].as_u64().unwrap_or(0) + violation_lines.len() as u64);
+                std::fs::write(&main, serde_json::to_string_pretty(&first).unwrap()).expect("write evidence");
+                let _ = std::fs::remove_file(evdir.join(format!("{check_id}.json")));
+                merged = true;
+            }
+        }
+    }
+    if !merged {
+        std::fs::write(evdir.join(format!("{check_id}.json")), serde_json::to_string_pretty(&evidence).unwrap())
+            .expect("write evidence");
+    }
 
     for l in &known_lines {
         println!("{l}");
